@@ -3,7 +3,7 @@
 Proof: Poly/Props/C38.lean (Verify exact w.r.t. the tracked blocks; non-contiguous blocks ignored; the most
 recent `max` contiguous blocks kept; capacity; Clean restarts; stateful check = ledger membership).
 Tie: correspondence streams `incval` (real increment.IncrementValidator on real blocks/transactions) and
-`stateful` (real stateful validator actor over a real ledger holding the genesis block) against drv_kv.
+`stateful` (real stateful validator actor over a real ledger that grows by real signed blocks) against drv_kv.
 Search: the harness keeps its own list of the most recent contiguous blocks and compares every Verify /
 BlockRange answer with it; stateful verdicts are compared with ledger.IsContainTransaction.
 """
@@ -15,7 +15,7 @@ def run(ctx):
         "transaction hashes are abstract identifiers in the model: distinct test transactions have distinct hashes (checked by the harness), "
         "SHA-256 collisions between transactions are out of scope",
         "a block's map[Uint256]bool is a list used through membership only; the mutex is not modelled (single-threaded use)",
-        "the stateful validator is exercised for transactions of the genesis block and for transactions not in the ledger; the ledger's "
+        "the stateful validator is exercised before/after real block commits (harness plays a 4-validator VBFT consensus); the ledger's "
         "transaction index itself belongs to C12/C13",
     ]
     ctx.cov["trusted_base"] += ["harness hkv/incval + hkv/stateful + drv_kv (correspondence check)", "Lean compiler for the driver"]
